@@ -223,7 +223,7 @@ def gen_action(rng, vals, d: Definition, kinds=None):
                 a.append(f)
                 d.strings.append(f)
             elif t in (":days", ":seconds"):
-                n = rng.choice([1, 7, 30, 3600])
+                n = rng.choice([0, 1, 7, 30, 3600, 0])
                 a.append(n)
                 d.numbers.append(str(n))
                 if t == ":seconds":
